@@ -355,6 +355,39 @@ def corpus():
     add("patch", ["b0=" + base, "b1=" + patch([[("op", s("move")), ("from", s("/a/b")), ("path", s("/d"))], [("op", s("copy")), ("from", s("/d")), ("path", s("/e"))]])], ["pa2,0,1"])
     add("patch", ["b0=" + base, "b1=" + patch([[("op", s("test")), ("path", s("/c")), ("value", s("x"))], [("op", s("add")), ("path", s("/a/b/-")), ("value", "s" + hx(LONG[:50]))]])], ["pa2,0,1"])
     add("patch", ["b0=" + base, "b1=" + patch([[("op", s("remove")), ("path", s("/zz"))]])], ["pa2,0,1"])
+    # every operation with `path` and `from` ending in / passing through member names that need unescaping (~0, ~1, both,
+    # several), on object and array parents, in place and on a copy: each has its own copies of the tokens to make and drop
+    def jo(members):
+        return "{" + ",".join("%s=%s" % (hx(k), v) for k, v in members) + "}"
+    edoc = jo([(b"a/b", jo([(b"m~n", "[i1,i2," + jo([(b"x/y", "i3")]) + "]"), (b"p", "s76")])),
+               (b"m~n", "[i10," + jo([(b"a/b~c", "s64656570")]) + ",i30]"),
+               (b"a/b~c", "s73"), (b"~/~", "[t]"), (b"p", jo([(b"q", "i1")])), (b"arr", "[[i1],[i2]]")])
+    existing = ["/a~1b", "/m~0n", "/a~1b~0c", "/~0~1~0", "/p", "/a~1b/m~0n", "/a~1b/p", "/p/q", "/m~0n/0", "/m~0n/1/a~1b~0c",
+                "/a~1b/m~0n/2/x~1y", "/a~1b/m~0n/2", "/arr/0", "/m~0n/1"]
+    targets = ["/new~1k", "/a~1b/n~0w", "/p/z~0~1", "/m~0n/1", "/m~0n/-", "/a~1b/m~0n/0", "/a~1b~0c", "/arr/1/-", "/m~0n/1/k~1"]
+    val = "[i7," + jo([(b"v~/", "n")]) + "]"
+
+    def both(kind, ops):
+        add(kind, ["b0=" + edoc, "b1=" + patch(ops)], ["pi0,1"], ks="*,A")
+        add(kind, ["b0=" + edoc, "b1=" + patch(ops)], ["pa2,0,1"], ks="*,A")
+    for pth in existing:
+        both("patch_escaped_remove", [[("op", s("remove")), ("path", s(pth))]])
+        both("patch_escaped_replace", [[("op", s("replace")), ("path", s(pth)), ("value", val)]])
+        both("patch_escaped_test", [[("op", s("test")), ("path", s(pth)), ("value", "s73")]])
+    for pth in targets:
+        both("patch_escaped_add", [[("op", s("add")), ("path", s(pth)), ("value", val)]])
+    for frm in existing:
+        for pth in targets[:6] + ["/p"]:
+            if pth.startswith(frm + "/"):
+                continue                                    # a location cannot be moved into one of its children
+            both("patch_escaped_move", [[("op", s("move")), ("from", s(frm)), ("path", s(pth))]])
+    for frm in existing[:8]:
+        for pth in targets[:4]:
+            both("patch_escaped_copy", [[("op", s("copy")), ("from", s(frm)), ("path", s(pth))]])
+    both("patch_escaped_multi", [[("op", s("move")), ("from", s("/a~1b/m~0n")), ("path", s("/t~0"))],
+                                 [("op", s("copy")), ("from", s("/t~0/2/x~1y")), ("path", s("/t~0/-"))],
+                                 [("op", s("remove")), ("path", s("/a~1b~0c"))],
+                                 [("op", s("test")), ("path", s("/t~0/3")), ("value", "i3")]])
     add("patch", ["b0=" + obj_n(11), "b1=" + patch([[("op", s("add")), ("path", s("/n~0m")), ("value", "n")], [("op", s("remove")), ("path", s("/k1"))]])], ["pa2,0,1"])
     return out
 
